@@ -110,7 +110,7 @@ def main():
         "setup_cmd": "cd /verif/harness && CARGO_NET_OFFLINE=true cargo build --release --offline -p vcheck",
         "hooks": {
             "guard": "--cfg flounder_verif",
-            "enable": "harness: flsrc/build.rs emits cargo:rustc-cfg=flounder_verif and compiles /repo/src in place via #[path]; engine binary: RUSTFLAGS=\"--cfg flounder_verif\" cargo build --release --offline --manifest-path /repo/Cargo.toml --target-dir /verif/work/engine",
+            "enable": "harness: flsrc/build.rs emits cargo:rustc-cfg=flounder_verif and compiles /repo/src in place via #[path]; the engine binary driven by the black-box layers of C03 C07 C13 C16 is built with the guard OFF (cargo build --release --offline --manifest-path /repo/Cargo.toml --target-dir /verif/work/engine): it is the program as shipped",
             "baseline_off_cmd": "cd /repo && cargo nextest run --workspace --no-fail-fast --tool-config-file pb:/w/lib/nextest.toml --profile pb --test-threads 8 --offline || cargo test --workspace --no-fail-fast --offline",
             "source_commits": hook_commits,
             "add_only": True,
